@@ -356,6 +356,21 @@ fn run17(cap: usize, toks: &[&str], wk: &mut Wakers, out: &mut String, mut tok_e
                     out.push('-');
                 }
             }
+            b'u' => {
+                // the guard is dropped while its thread is unwinding from a panic (what happens to a guard held by a task
+                // or a service call that panics): still a guard drop as far as C17 is concerned
+                let g = num(t);
+                if g >= guards.len() || guards[g].is_none() {
+                    out.push('!');
+                } else {
+                    let guard = guards[g].take();
+                    let _ = std::panic::catch_unwind(std::panic::AssertUnwindSafe(move || {
+                        let _held = guard;
+                        panic!("unwinding past a live guard");
+                    }));
+                    out.push('-');
+                }
+            }
             b'v' => {
                 let w = wk.get(num(t)).clone();
                 let cx = Context::from_waker(&w);
